@@ -291,6 +291,43 @@ theorem join_waits_for_all (h : List Exchange) (sched : List Choice) :
   rw [hc]
   cases hq : (exec (Sys.init h) sched).queue <;> cases hi : (exec (Sys.init h) sched).inflight <;> simp
 
+/-! ### a slow database at shutdown (slow disk, file locked by another connection) -/
+
+/-- `disconnect()` makes the whole backlog durable - the row the consumer holds and everything queued, however long that
+    takes: there is no bound on the wait -/
+theorem disconnect_writes_whole_backlog (s : Sys) : afterDisconnect s = s.db ++ s.backlog := by
+  rw [afterDisconnect_eq]; simp [Writer.all, Sys.backlog]
+
+/-- **a bound on the wait is safe exactly when the backlog fits into it.**  For every history, every schedule (write
+    failures, cancellation points) and every budget of rows the consumer may still complete before it is cancelled: the
+    table holds the rows of all performed exchanges iff the backlog at `disconnect()` is not longer than the budget.  The
+    backlog is not bounded by anything the client controls (`put` never suspends, the consumer may be arbitrarily slow). -/
+theorem bounded_sync_complete_iff (b : Nat) (h : List Exchange) (sched : List Choice) :
+    afterBoundedDisconnect b (exec (Sys.init h) sched) = specRows .init 0 (exec (Sys.init h) sched).done ↔
+      (exec (Sys.init h) sched).backlog.length ≤ b := by
+  rw [← (rows_eq_history_under_faults h sched).1, disconnect_writes_whole_backlog]
+  unfold afterBoundedDisconnect
+  rw [List.append_right_inj, take_self_iff]
+
+/-- **no finite bound is safe**: for every budget there is a history (the consumer did not get to run before
+    `disconnect()`: the database was busy) whose rows a bounded sync loses - the unbounded `join()` of the code is what
+    the property needs -/
+theorem bounded_sync_loses_rows (b : Nat) (e : Exchange) (he : e.implicitOn = true) :
+    afterBoundedDisconnect b (runAll (List.replicate (b + 1) e)) ≠ specRows .init 0 (List.replicate (b + 1) e) := by
+  intro heq
+  have hr := rows_eq_history (List.replicate (b + 1) e)
+  have hl := one_row_per_logged_exchange .init 0 (List.replicate (b + 1) e)
+  rw [← hr, disconnect_writes_whole_backlog] at hl
+  have hd := (prods_keep_db (List.replicate (b + 1) e) (Sys.init (List.replicate (b + 1) e))).1
+  have hd2 : (runAll (List.replicate (b + 1) e)).db = [] := by
+    unfold runAll; rw [hd]; rfl
+  rw [← hr, disconnect_writes_whole_backlog] at heq
+  unfold afterBoundedDisconnect at heq
+  rw [List.append_right_inj, take_self_iff] at heq
+  rw [hd2] at hl
+  simp [he] at hl
+  omega
+
 /-- after a `cancel` nothing the producer had not yet done leaves a trace -/
 theorem nothing_after_cancel (h : List Exchange) (s1 s2 : List Choice) (hr1 : Choice.retry ∉ s1) (hr2 : Choice.retry ∉ s2) :
     afterDisconnect (exec (Sys.init h) (s1 ++ Choice.cancel :: s2)) = afterDisconnect (exec (Sys.init h) s1) := by
@@ -681,6 +718,14 @@ example :
       [ ⟨.implicit, ⟨1, none⟩, [0x10, 0x03], 1, some [0x50, 0x03], some 3, none⟩,
         ⟨.emphasized, ⟨3, none⟩, [0x22, 0xF1, 0x90], 4, none, none, some [0x4D]⟩,
         ⟨.implicit, ⟨3, some 1⟩, [0x3E, 0x00], 8, none, none, none⟩ ] := by decide
+
+/-- a slow database: the consumer committed one row and holds the second when `disconnect()` is called; the unbounded
+    sync leaves all three rows, a sync bounded to one more row loses the third, a budget of two suffices -/
+example :
+    let s := exec (Sys.init [ex1, ex2, ex4]) [.prod, .prod, .get, .commit, .prod, .get]
+    s.backlog.length = 2 ∧ afterDisconnect s = specRows .init 0 [ex1, ex2, ex4] ∧
+    afterBoundedDisconnect 1 s ≠ specRows .init 0 [ex1, ex2, ex4] ∧
+    afterBoundedDisconnect 2 s = specRows .init 0 [ex1, ex2, ex4] := by decide
 
 /-- write failures leave the order alone: the second row's `execute` fails twice, then its `commit` once -/
 example :
